@@ -150,7 +150,7 @@ theorem reduce_spec' {a : Prims.Fe} (ha : U64 a) :
 
 theorem reduce_spec {a : Prims.Fe} (ha : Inv a) :
     Lt51 (Fe.reduce a) ∧ val (Fe.reduce a) = val a % P :=
-  reduce_spec' (inv_u64 ha)
+  reduce_spec' (inv_U64 ha)
 
 theorem P_pos : 0 < P := by simp only [P, EdVerif.P]; omega
 
